@@ -21,6 +21,11 @@ def build(case):
     a = spc.default_assertion()
     a['issue_instant'] = env.ts(now - 5, sp)
     a['conf'] = [{'recipient': env.SP_ACS_POST, 'irt': 'id1', 'nooa': t(vals['sNOOA']), 'nb': t(vals['sNB'])}]
+    other = {'recipient': env.SP_ACS_POST, 'irt': 'id1', 'nooa': env.ts(now + 3 * 86400, sp)}
+    if scn.get('conf2') == 'validFirst':
+        a['conf'].insert(0, other)
+    elif scn.get('conf2') == 'validSecond':
+        a['conf'].append(other)
     a['cond'] = {'nb': t(vals['cNB']), 'nooa': t(vals['cNOOA']), 'audiences': [[env.SP]]}
     a['authn'] = {'instant': env.ts(now - 10, sp), 'session_nooa': t(vals['sess'])}
     r = spc.default_response()
